@@ -16,6 +16,9 @@
 (***************************************************************************)
 EXTENDS Grouping, TLC, Json
 CONSTANTS MinN, MaxN,
+          GeoMaxN,     \* every non-empty set of geometry-less events is enumerated for twin-free lists up to this length
+          GeoFilter,   \* "none" (the code) | "filtered" (control: events without geometry are left out of the pair loop,
+                       \*  the indices then refer to the filtered list)
           RetMaxN,     \* the non-bool return types of the comparison function are enumerated for lists up to this length
           TruthTest,   \* "truthy" (the code: if not f(a, b)) | "is_true" (control: f(a, b) is not True)
           TwinMaxN     \* lists with twin positions (one event at several positions) are enumerated up to this length
@@ -42,24 +45,31 @@ Repeated(m) == {a \in Range(m) : Cardinality({i \in DOMAIN m : m[i] = a}) >= 2}
 IdPairSeq(m) == LET k == NumIds(m)
                     all == [q \in 1..(k * k) |-> <<((q - 1) \div k) + 1, ((q - 1) % k) + 1>>]
                 IN  SelectSeq(all, LAMBDA p : p[1] < p[2] \/ (p[1] = p[2] /\ p[1] \in Repeated(m)))
-Graph(n, m, G, rt) == [n |-> n, id |-> m, e |-> SelectSeq(IdPairSeq(m), LAMBDA p : p \in G), ret |-> rt]
+GraphG(n, m, G, rt, N) == [n |-> n, id |-> m, e |-> SelectSeq(IdPairSeq(m), LAMBDA p : p \in G), ret |-> rt,
+                           ng |-> SelectSeq([i \in 1..n |-> i], LAMBDA a : a \in N)]
+Graph(n, m, G, rt) == GraphG(n, m, G, rt, {})
 
 Init == /\ \E n \in MinN..MaxN :
              \E m \in (IF n <= TwinMaxN THEN IdMaps(n) ELSE {Identity(n)}) :
                 \E G \in SUBSET Range(IdPairSeq(m)) :
-                   \E rt \in (IF n <= RetMaxN /\ m = Identity(n) THEN RetTypes ELSE {"bool"}) : c = Graph(n, m, G, rt)
+                   \/ \E rt \in (IF n <= RetMaxN /\ m = Identity(n) THEN RetTypes ELSE {"bool"}) : c = Graph(n, m, G, rt)
+                   \* some events have no geometry: first, middle, last, several, all
+                   \/ n <= GeoMaxN /\ m = Identity(n) /\ \E N \in (SUBSET (1..n)) \ {{}} : c = GraphG(n, m, G, "bool", N)
         /\ pc = "pairs" /\ pi = 1 /\ mat = {} /\ calls = <<>>
         /\ lab = [i \in Nodes(c) |-> -1] /\ nl = 0 /\ fr = {} /\ gi = 1 /\ seqs = <<>> /\ steps = 0
 
-PS == PairSeq(c.n)
+\* the positions that take part in the pair loop, and the index each of them is given there
+Loc == IF GeoFilter = "filtered" THEN SelectSeq([i \in 1..c.n |-> i], LAMBDA i : c.id[i] \notin Range(c.ng))
+       ELSE [i \in 1..c.n |-> i]
+PS == PairSeq(Len(Loc))
 \* the pair is linked when the answer passes the test of the code: truthiness, or (control) identity with True
 Linked(i, j) == Edge(c, i, j) /\ (TruthTest = "truthy" \/ c.ret = "bool")
-PairHit  == /\ pc = "pairs" /\ pi <= Len(PS) /\ Linked(PS[pi][1], PS[pi][2])
-            /\ calls' = Append(calls, <<c.id[PS[pi][1]], c.id[PS[pi][2]]>>)
+PairHit  == /\ pc = "pairs" /\ pi <= Len(PS) /\ Linked(Loc[PS[pi][1]], Loc[PS[pi][2]])
+            /\ calls' = Append(calls, <<c.id[Loc[PS[pi][1]]], c.id[Loc[PS[pi][2]]]>>)
             /\ mat' = mat \cup {<<PS[pi][1], PS[pi][2]>>, <<PS[pi][2], PS[pi][1]>>}
             /\ pi' = pi + 1 /\ UNCHANGED <<c, pc, lab, nl, fr, gi, seqs>>
-PairMiss == /\ pc = "pairs" /\ pi <= Len(PS) /\ ~Linked(PS[pi][1], PS[pi][2])
-            /\ calls' = Append(calls, <<c.id[PS[pi][1]], c.id[PS[pi][2]]>>)
+PairMiss == /\ pc = "pairs" /\ pi <= Len(PS) /\ ~Linked(Loc[PS[pi][1]], Loc[PS[pi][2]])
+            /\ calls' = Append(calls, <<c.id[Loc[PS[pi][1]]], c.id[Loc[PS[pi][2]]]>>)
             /\ pi' = pi + 1 /\ UNCHANGED <<c, pc, mat, lab, nl, fr, gi, seqs>>
 PairsDone == pc = "pairs" /\ pi > Len(PS) /\ pc' = "label" /\ UNCHANGED <<c, pi, mat, calls, lab, nl, fr, gi, seqs>>
 
